@@ -52,7 +52,13 @@ def run_one(mut, tier, with_tests, procs):
         env = dict(os.environ, VERIF_REPO=tmp, VERIF_EVIDENCE=os.path.join(tmp, 'evidence.json'),
                    VERIF_PROCS=str(procs))
         t0 = time.time()
-        p = subprocess.run([os.path.join(V, 'check'), prop, tier], cwd=V, env=env, capture_output=True, text=True)
+        try:
+            p = subprocess.run([os.path.join(V, 'check'), prop, tier], cwd=V, env=env, capture_output=True, text=True,
+                               timeout=1500)
+        except subprocess.TimeoutExpired:
+            subprocess.call(['pkill', '-f', 'VERIF_REPO=%s' % tmp])
+            res['status'] = 'CHECK-HUNG (no result within 1500 s)'
+            return res
         res['wall_s'] = round(time.time() - t0, 1)
         res['exit'] = p.returncode
         vio = [l for l in p.stdout.splitlines() if l.startswith('VIOLATION')]
